@@ -277,7 +277,9 @@ def run(tier, seed):
     res.disagreements_checked = res.traces
     res.trusted += ['closing formulas: hand-written generic-scalar model evaluated at Float with Phi / phi values supplied by scipy (oracle inputs); '
                     'curvature extraction: tolerance tie 2e-4 (finite-difference Hessian), flat clause 2e-4',
-                    'coptFORM (SLSQP), numerical Hessian, np.linalg.eig and Gram-Schmidt conditioning are modelled, not verified']
+                    'coptFORM (SLSQP), numerical Hessian, np.linalg.eig and Gram-Schmidt conditioning are modelled, not verified',
+                    'the three closing formulas are REGENERATED from the numpy vector expressions of the source on every run (harness/translate_vec.py -> Gen/VecFormulas.lean), proved equal to the model for every scalar type (Proofs/VecGen.lean) and validated at Float (c12gen)',
+                    'Model/SormPipe.lean: executable model of the curvature extraction (normal, lognormal, exponential, uniform, Gumbel, Weibull marginals; exact gradient and Hessian of quadratic limit states handed to the model), compared with mainCurvaturesAtDesignPoint through the eigenvalues of its block at 2e-5; theorems Proofs/C12Pipe.lean, C12Rows.lean are about this model']
     return core.finish(res)
 
 
